@@ -34,6 +34,7 @@ from vf.project import Project
 
 ID = "C11"
 TECHNIQUE = "Hypothesis grammar-aware mutators + structural blow-ups + raw bytes among healthy siblings; oracle = exit in {0,1}, swallowed-failure tap empty (hook H1), sibling findings unchanged, bounded time; coverage-guided atheris stage in the thorough tier"
+CASE_LIMIT_S = 900  # backstop for a case stuck in C code; a command is judged by its own limits (60 s in-process, then 300 s in a fresh process)
 HANG_IS_VIOLATION = True  # termination is part of this property: a case over the limit twice (in its shard, then alone) is a violation
 RULE = (
     "case = (valid seed file of py/ts/js/rs, sequence of 1-4 byte/token-level mutations) | (structural blow-up kind, size n, language) | "
@@ -449,10 +450,10 @@ def confirm_hang(case, root, detail, where):
     args = ["nesting" if where == "library" else where, "--format", "json", "."]
     try:
         t0 = time.time()
-        runner.run_cli_sub(args, cwd=root, timeout=120)
+        runner.run_cli_sub(args, cwd=root, timeout=300)
         return [Failure(f"slow|{where if where != 'library' else 'all-rules'}", {**detail, "seconds_in_fresh_process": round(time.time() - t0, 1)})] if where != "library" and time.time() - t0 > 60 else []
     except subprocess.TimeoutExpired:
-        return [Failure(f"hang|{where}", {**detail, "limit_s": 120})]
+        return [Failure(f"hang|{where}", {**detail, "limit_s": 300})]
 
 
 # ------------------------------------------------------------------------------------------ strategies
@@ -481,6 +482,8 @@ def blowups(max_n):
             n = 5000
         if blow == "functions" and n > 2000:
             n = 2000  # 5,000 functions take 35-80 s per command (super-linear but terminating): too close to the time limits
+        if blow == "elif" and n > 1000:
+            n = 1000  # a 2,000-link chain holds thousands of duplicate windows: DRY needs ~20 s for the file alone, minutes per case
         if blow not in ("longline", "comment") and n > 20000:
             n = 20000
         lang = draw(st.sampled_from(["py", "ts", "js", "rs"]))
